@@ -141,6 +141,8 @@ pub fn prop() -> HistProp {
     w.liquidate = 1;
     w.funding = 3;
     w.ecfg = 2;
+    // the owner closes / re-opens markets in between (the band's reference is still the previous block's final price)
+    w.setopen = 2;
     HistProp {
         id: "C15",
         level: "exploration",
